@@ -2,6 +2,8 @@
 // Use of this source code is governed by an MIT
 // licence that can be found in the LICENCE file.
 
+use crate::lexer::InterpSlot;
+
 #[derive(Clone, Debug)]
 pub enum Prog {
     Body{stmts: Block},
@@ -58,8 +60,8 @@ pub enum RawExpr {
     Int{n: i64},
     // `interpolation_slots` is `None` iff the string isn't interpolated,
     // otherwise it contains start/end indices of substrings to be evaluated
-    // during interpolation.
-    Str{s: String, interpolation_slots: Option<Vec<(usize, usize)>>},
+    // during interpolation, each with the source location of the slot.
+    Str{s: String, interpolation_slots: Option<Vec<InterpSlot>>},
 
     Var{name: String},
 
